@@ -78,3 +78,33 @@ def replay(harness, witness, scratch):
         rep = r.get('panicked') or r.get('line') != line or r.get('column') != col
         return {'driver': 'replay_driver errnew %x %x %d' % (c1, c2, off), 'observed': r, 'expected': {'line': line, 'column': col}, 'reproduced': bool(rep)}
     return None
+
+
+def probe_slice(scratch):
+    """Clause-derived probe for failed obligations of unit `slice` (never decides anything): boundary values of
+    (len, start, stop, step) evaluated on the real crate and compared with Python's list[start:stop:step]."""
+    exe = build(scratch)
+    I = 2 ** 31
+    ends = [None, 0, 1, 2, 3, 5, -1, -2, -3, -4, -5, I - 1, -(I - 1)]
+    steps = [1, 2, 3, -1, -2, -3, I - 1, -(I - 1)]
+    probes = []
+    for n in range(0, 5):
+        for a in ends:
+            for b in ends:
+                for st in steps:
+                    probes.append((n, a, b, st))
+    inp = '\n'.join('%d %s %s %d' % (n, '-' if a is None else a, '-' if b is None else b, st) for n, a, b, st in probes)
+    p = subprocess.run([exe, 'slices'], input=inp, capture_output=True, text=True, timeout=600)
+    bad = []
+    for (n, a, b, st), line in zip(probes, p.stdout.strip().split('\n')):
+        try:
+            r = json.loads(line)
+        except Exception:
+            continue
+        want = list(range(n))[slice(a, b, st)]
+        got = r.get('ok')
+        if r.get('panicked') or got != want:
+            bad.append({'expression': r.get('expr'), 'document': list(range(n)), 'expected': want, 'observed': 'panic' if r.get('panicked') else r.get('ok', r)})
+            if len(bad) >= 3:
+                break
+    return {'driver': 'replay_driver slices (%d boundary probes vs Python list slicing)' % len(probes), 'failing_inputs': bad, 'reproduced': bool(bad)}
